@@ -22,8 +22,8 @@ open PhyModel PhyModel.Store PhyModel.Store.Store PhyModel.RunLoop PhyModel.Trac
 C07's `WF` (names / graph indices unique, the two maps are exactly the payload pairs, `_data` keyed by
 clone names or the outlier key and listing each clone's payload set, every data point in one place;
 graph indices may have arbitrary gaps), `Full` (every clone has a `_data` entry), C06's `CacheOK`, and
-the payload-order normalisation `Aligned` (`Model/DictRT.lean`: the payload's data-point set is listed
-in `_data` order, the order in which `from_dict` re-adds it). -/
+the payload-order normalisation `Aligned` (also `Proofs/StoreInv.lean`: the payload's data-point set is
+listed in `_data` order, the order in which `from_dict` re-adds it). -/
 def Inv (dt : Data) (s : Store) : Prop := WF s ∧ Full s ∧ CacheOK dt s ∧ Aligned s
 
 theorem Inv.wfd {dt : Data} {s : Store} (h : Inv dt s) : WFd dt s :=
